@@ -9,11 +9,13 @@
 (* (M) identifiability: no offered wrong guess induces the same (or, for sign-free statistics, the complementary)         *)
 (*     leakage column as the true key on this input set - otherwise "ranks first" would be undecidable by symmetry.        *)
 EXTENDS SelAES, Json, IOUtils
-C == JsonDeserialize(IOEnv.CASES)      \* [fn, inputs, kw (16 bytes), words (1-based), guesses, model, nsamples, seed]
-VARIABLE j                             \* index into the attacked words
-Init == j \in 1..Len(C.words)
-Next == UNCHANGED j
-Spec == Init /\ [][Next]_j
+Cases == JsonDeserialize(IOEnv.CASES)  \* sequence of [fn, inputs, kw (16 bytes), words (1-based), guesses, model, nsamples, seed]
+VARIABLES ci, j                        \* configuration; index into its attacked words
+C == Cases[ci]
+\* (the attacked word is chosen by a transition so that TLC's workers share the evaluations)
+Init == ci \in 1..Len(Cases) /\ j = 0
+Next == j = 0 /\ j' \in 1..Len(Cases[ci].words) /\ UNCHANGED ci
+Spec == Init /\ [][Next]_<<ci, j>>
 RECURSIVE Pop(_)
 Pop(x) == IF x = 0 THEN 0 ELSE (x % 2) + Pop(x \div 2)
 Model(v) == CASE C.model = "hw" -> Pop(v) [] C.model = "bit0" -> v % 2 [] OTHER -> v
@@ -26,5 +28,5 @@ Identifiable == \A gi \in 1..Len(C.guesses) : C.guesses[gi] # C.kw[W] =>
                    /\ Col(C.guesses[gi]) # TrueCol
                    /\ (C.symmetric => \E i \in 1..N : Col(C.guesses[gi])[i] + TrueCol[i] # MaxLeak)        \* not the complementary column
 Noise(i, s) == ((((((i * 7919) + (s * 104729) + C.seed) % 65537) * 75) % 65537) % 3) - 1
-Emit == PrintT(<<"EMIT", ToJson([j |-> j, leak |-> TrueCol, noise |-> [i \in 1..N |-> [s \in 1..C.nsamples |-> IF s = C.nsamples THEN 7 ELSE Noise(i, s)]]])>>)
+Emit == j > 0 => PrintT(<<"EMIT", ToJson([ci |-> ci, j |-> j, identifiable |-> Identifiable, leak |-> TrueCol, noise |-> [i \in 1..N |-> [s \in 1..C.nsamples |-> IF s = C.nsamples THEN 7 ELSE Noise(i, s)]]])>>)
 =============================================================================
